@@ -12,7 +12,7 @@ THEOREMS = ["C07_fingerprints", "C07_from_zscore_fl_def", "C07_from_zscore_fl_va
             "C07_affine_sub_fl_def", "C07_affine_sub_fl_value", "C07_affine_sub_fl_error", "C07_fl_source",
             "C07_scale_fl_def", "C07_scale_source", "C07_scale_fl_value", "C07_scale_fl_error", "C07_scale_fl_comm_value", "C07_scale_fl_nonneg",
             "C07_scale_fl_monotone", "C07_scale_fl_pow2", "C07_recip_source", "C07_recip_fl_value", "C07_neg_recip_fl_value",
-            "C07_exp_sample_fl_def", "C07_exp_sample_fl_error"]
+            "C07_exp_sample_fl_def", "C07_exp_sample_fl_error", "C07_scale_fl_ge_scale"]
 TRUSTED_BASE = [
     "Coq 8.16.1 kernel; Proofs/Equivariance.v: on the sampler models (coq/Model/Continuous.v, tied to the code by C01's pathwise "
     "correspondence) the decision tree for (loc, scale) is the decision tree of the standard sampler with the affine expression applied at "
